@@ -63,7 +63,7 @@ Definition jwt_valid (auth : bytes) (mal : bool) (alg : Z) (c : claims) (now : Z
   | None => false
   | Some _ =>
     negb mal && claims_ok c now
-    && existsb (fun k => alg_compat alg (k_kty k) && k_sig_ok k && ((k_alg k =? 0) || (k_alg k =? alg))) keys
+    && existsb (fun k => ((k_alg k =? 0) || (k_alg k =? alg)) && alg_compat alg (k_kty k) && k_sig_ok k) keys
   end.
 Definition link_valid (he : bool) (expires checksum digest : bytes) (now : Z) : bool :=
   (if he then match parse_int expires with Some e => now <=? e | None => false end else true)
@@ -117,15 +117,6 @@ Definition prop_C51 (i o : val) : bool :=
   | _ => false
   end.
 
-(* known finding 1: a token whose signature verifies under a configured key of the right type but whose "alg"
-   differs from the algorithm that key declares (HS256 token, key declared HS512) is accepted *)
-Definition kf_C51 (i : val) : Z :=
-  match i with
-  | VL [VZ 2; VB auth; VZ mal; VZ alg; cl; VZ now; ks; _] =>
-    match dec_claims cl, dec_keys ks with
-    | Some c, Some keys =>
-      if jwt_accept auth (b mal) alg c now keys && negb (jwt_valid auth (b mal) alg c now keys) then 1 else 0
-    | _, _ => 0
-    end
-  | _ => 0
-  end.
+(* no open finding: the algorithm-confusion acceptance (HS256 token under a key declared HS512) was repaired in
+   /repo commit dccedcf and the model follows the repaired code *)
+Definition kf_C51 (i : val) : Z := 0.
